@@ -1,5 +1,6 @@
 import HapVerif.Model.C02
 import HapVerif.Generated.Facts
+import HapVerif.Props.C02Pair
 /-!
 # C02 — running HAProxy never diverges from disk after runtime updates (M-Dyn)
 
@@ -62,5 +63,55 @@ theorem dup_old_out_of_range :
 theorem facts_c02 :
     Facts.c02OkPrefixes = ["IP changed from ", "no need to change "] ∧
     Facts.c02EmptyAddr = "127.0.0.1" ∧ Facts.c02EmptyPort = 1023 := by decide
+
+/-! ### the theorems about the pairing loop (proved in `Props/C02Pair.lean`, restated here for the audit) -/
+
+/-- P1: `empty[i]` is never read out of range -/
+theorem no_oob (old cur : List EP) (p : Bool) (iw : Int) (same : Bool) (sc : List Resp)
+    (hO : hasDupTarget old = false) (hC : hasDupTarget cur = false) (hlen : cur.length ≤ old.length) :
+    pairLoop old cur p iw same sc ≠ none := C02Pair.no_oob old cur p iw same sc hO hC hlen
+
+/-- P1': `checkBackendPair` never panics (the guard on duplicated targets is part of it) -/
+theorem no_panic (old cur : Back) (same : Bool) (sc : List Resp) :
+    (checkBackendPair old cur same sc).panic = false := C02Pair.no_panic old cur same sc
+
+/-- P2: the slot count is preserved -/
+theorem len_preserved (old cur : List EP) (p : Bool) (iw : Int) (same : Bool) (sc : List Resp)
+    (hO : hasDupTarget old = false) (hC : hasDupTarget cur = false) (hE : cur.all (·.enabled) = true)
+    (hlen : cur.length ≤ old.length) (s : PairSt) (hs : pairLoop old cur p iw same sc = some s) :
+    s.cur.length = old.length := C02Pair.len_preserved old cur p iw same sc hO hC hE hlen s hs
+
+/-- P3: the names of the result are a permutation of the old names -/
+theorem names_perm (old cur : List EP) (p : Bool) (iw : Int) (same : Bool) (sc : List Resp)
+    (hO : hasDupTarget old = false) (hC : hasDupTarget cur = false) (hE : cur.all (·.enabled) = true)
+    (hlen : cur.length ≤ old.length) (s : PairSt) (hs : pairLoop old cur p iw same sc = some s) :
+    (s.cur.map (·.name)).Perm (old.map (·.name)) := C02Pair.names_perm old cur p iw same sc hO hC hE hlen s hs
+
+/-- P4: a failed command is never reported as a successful dynamic update -/
+theorem pair_fault (old cur : Back) (same : Bool) (sc : List Resp) :
+    (¬ (sc.take (checkBackendPair old cur same sc).cmds.length).all Resp.ok = true →
+      (checkBackendPair old cur same sc).updated = false) ∧
+    ((checkBackendPair old cur same sc).updated = true → same = true) := C02Pair.pair_fault old cur same sc
+
+/-- P5: after a successful dynamic update the running table is the rendered one -/
+theorem pair_sound (old cur : Back) (same : Bool) (sc : List Resp) (hr : cur.resolver = false)
+    (hE : cur.eps.all (·.enabled) = true) (hN : namesNodup old.eps = true) :
+    (checkBackendPair old cur same sc).updated = true →
+    sortN (norm ((checkBackendPair old cur same sc).cmds.foldl applyCmd (load old.eps))) =
+      sortN (norm (load (checkBackendPair old cur same sc).cur)) := C02Pair.pair_sound old cur same sc hr hE hN
+
+/-- P5 through the executable oracle -/
+theorem checkBackendPair_oracle_none (old cur : Back) (same : Bool) (sc : List Resp)
+    (hor : old.resolver = false) (hr : cur.resolver = false) (hE : cur.eps.all (·.enabled) = true)
+    (hN : namesNodup old.eps = true) (hNc : namesNodup cur.eps = true) :
+    oracle old ((sc.take (checkBackendPair old cur same sc).cmds.length).all Resp.ok)
+      (checkBackendPair old cur same sc) = none :=
+  C02Pair.checkBackendPair_oracle_none old cur same sc hor hr hE hN hNc
+
+theorem checkBackendPair_oracle_none_ok (old cur : Back) (same : Bool) (sc : List Resp)
+    (hor : old.resolver = false) (hr : cur.resolver = false) (hE : cur.eps.all (·.enabled) = true)
+    (hN : namesNodup old.eps = true) (hNc : namesNodup cur.eps = true) :
+    oracle old true (checkBackendPair old cur same sc) = none :=
+  C02Pair.checkBackendPair_oracle_none_ok old cur same sc hor hr hE hN hNc
 
 end HapVerif.C02
